@@ -47,6 +47,9 @@ type c20Meta struct {
 	RunArgs  [][]string          `json:"run_args"`
 	MinSized bool                `json:"min_sized"`
 	Cycle    bool                `json:"cross_file_cycle"`
+	// CrossPkgCombo / CrossPkgAnyOf: an allOf/anyOf (resp. anyOf) branch $ref crosses packages
+	CrossPkgCombo bool `json:"crosspackage_combinator_ref"`
+	CrossPkgAnyOf bool `json:"crosspackage_anyof_ref"`
 	Pkgs     map[string]string   `json:"pkgs"` // package base name -> path
 }
 
@@ -109,6 +112,12 @@ func buildC20Meta(w *World) c20Meta {
 		for _, r := range f.Refs {
 			if r.LocalOnly {
 				continue
+			}
+			if tf := w.File(r.ToTag); r.Combo != "" && tf != nil && tf.Pkg != f.Pkg {
+				m.CrossPkgCombo = true
+				if r.Combo == "anyOf" {
+					m.CrossPkgAnyOf = true
+				}
 			}
 			file := r.Ref
 			if i := strings.Index(file, "#"); i >= 0 {
@@ -407,7 +416,11 @@ func (p c20) Eval(c *Case, outs []*Out) []Discrepancy {
 				case len(found) == 0:
 					add("R", "marker-missing", fmt.Sprintf("no emitted struct carries %s (schema %s)", mk, tg))
 				case len(found) > 1:
-					add("R", "marker-in-several-files", fmt.Sprintf("%s emitted into %v", mk, found))
+					cls := "marker-in-several-files"
+					if meta.CrossPkgAnyOf {
+						cls += ":crosspackage-anyOf-ref"
+					}
+					add("R", cls, fmt.Sprintf("%s emitted into %v", mk, found))
 				case found[0] != f.OutAbs:
 					add("R", "wrong-file", fmt.Sprintf("%s emitted into %q, mapping says %q", mk, found[0], f.OutAbs))
 				default:
@@ -462,7 +475,11 @@ func (p c20) Eval(c *Case, outs []*Out) []Discrepancy {
 			for ip, nm := range g.Imports {
 				if _, mapped := meta.Pkgs[nm]; mapped && meta.Pkgs[nm] == ip {
 					if _, used := q[nm]; !used {
-						add("X", "unused-package-import", fmt.Sprintf("output %q imports %q but never uses it (does not compile)", path, ip))
+						cls := "unused-package-import"
+						if meta.CrossPkgCombo {
+							cls += ":crosspackage-combinator-ref"
+						}
+						add("X", cls, fmt.Sprintf("output %q imports %q but never uses it (does not compile)", path, ip))
 					}
 				}
 			}
